@@ -5,7 +5,8 @@ Everything here is a pure function of plain data:
   service   := {"name", "did", "layout", "type"}        identification service `22 <did>` -> `62 <did> <payload>`
   mparam    := {"svc": <service name>, "exp": <expected value text>, "tgt": "id"|"nrc",
                 "phys": None|True|False}                 (phys only for base variants; None == default == physical)
-  candidate := {"kind": "EV"|"BV", "own": [service names the variant re-defines with its own request], "patterns": [[mparam..]..]}
+  candidate := {"kind": "EV"|"BV", "own": [service names the variant re-defines with its own request],
+                "alt": [service names the variant re-defines with the SAME request but another response layout], "patterns": [[mparam..]..]}
   answer    := "V1" | "V2" | "NEG" | "BAD" | "EMPTY"     what the ECU replies to one identification request
                 (value 1, value 2, negative response, truncated = undecodable bytes, a reply of zero bytes)
   ecu       := {request key: answer}                     request key = "P:<hex>" / "F:<hex>" (physical / functional)
@@ -62,6 +63,10 @@ FIELD_ITEMS = {"field": (2, 1), "f1_0": (1, 0), "f2_0": (2, 0), "f3_0": (3, 0), 
 # are tolerated) listed BEFORE the long one `62 <did> <id> <rev>`; the matching parameter points at `rev`, which only the
 # long one exhibits ("tworesp_r": long one listed first). The value decoded from the ECU's response is the one of the
 # response object that exhibits the parameter.
+# "swap": the reply carries both values, `62 <did> <wanted> <the other one>`. The inherited service reads `id` from the first
+# payload byte (the trailing byte is tolerated); a variant that re-defines the service under the same short name with the
+# same request ("alt") reads `id` from the SECOND byte: identical request, identical reply bytes, different decoded value.
+SWAP = "swap"
 TWO_RESPONSES = ("tworesp", "tworesp_r")
 TWORESP_ID = 0x07  # the constant content of the `id` byte in these replies
 EXTRA_LAYOUTS = ("f1_0", "f2_0", "f3_0", "f3_1", "f3_2", "fnest", "sstruct", "ffield") + TWO_RESPONSES
@@ -129,12 +134,15 @@ def request_bytes(svc: Dict[str, Any], own: bool = False) -> bytes:
     return bytes([0x22]) + did_of(svc, own).to_bytes(2, "big")
 
 
-def item_values(svc: Dict[str, Any], answer: str) -> List[Any]:
+def item_values(svc: Dict[str, Any], answer: str, alt: bool = False) -> List[Any]:
     """Values of the identification parameter `id` carried by the reply (a field carries 1..3 items, exactly one
-    of them -- the first, a middle or the last one -- with the wanted value: 'any item of a field' is needed)."""
+    of them -- the first, a middle or the last one -- with the wanted value: 'any item of a field' is needed).
+    alt: as decoded by a variant's alternative definition of the service (layout "swap" only)."""
     if answer not in ("V1", "V2"):
         return []
     vals = VALUES[svc["type"]]
+    if svc["layout"] == SWAP:
+        return [vals[{"V1": "V2", "V2": "V1"}[answer]] if alt else vals[answer]]
     if svc["layout"] in FIELD_ITEMS:
         n, k = FIELD_ITEMS[svc["layout"]]
         return [vals[answer] if i == k else vals["other"] for i in range(n)]
@@ -150,6 +158,8 @@ def response_bytes(svc: Dict[str, Any], answer: str, own: bool = False) -> bytes
     if answer == "BAD":
         return bytes([0x62, did[0]])  # truncated: too short for the positive, the negative and the global negative response
     body = b"".join(wire(svc["type"], v) for v in item_values(svc, answer))
+    if svc["layout"] == SWAP:
+        body += b"".join(wire(svc["type"], v) for v in item_values(svc, answer, alt=True))
     if svc["layout"] == "tstruct":
         body = bytes([0x01]) + body  # table key selecting the only row
     if svc["layout"] in TWO_RESPONSES:
@@ -159,17 +169,18 @@ def response_bytes(svc: Dict[str, Any], answer: str, own: bool = False) -> bytes
     return bytes([0x62]) + did + body
 
 
-def decoded_values(svc: Dict[str, Any], tgt: str, answer: str) -> Tuple[str, List[Any]]:
+def decoded_values(svc: Dict[str, Any], tgt: str, answer: str, alt: bool = False) -> Tuple[str, List[Any]]:
     """(type, values) the matching parameter's target decodes to in the reply; [] = the reply has no such value."""
     if tgt == "id":
-        return svc["type"], item_values(svc, answer)
+        return svc["type"], item_values(svc, answer, alt)
     if tgt == "nrc":
         return "u8", ([NRC] if answer == "NEG" else [])
     raise ValueError(tgt)
 
 
-def param_matches(svc: Dict[str, Any], mp: Dict[str, Any], answer: str) -> bool:
-    typ, vals = decoded_values(svc, mp["tgt"], answer)
+def param_matches(svc: Dict[str, Any], mp: Dict[str, Any], answer: str, alt: bool = False) -> bool:
+    """alt: the candidate resolves the service short name to its own alternative definition (other response layout)."""
+    typ, vals = decoded_values(svc, mp["tgt"], answer, alt)
     return any(value_equals(typ, mp["exp"], v) for v in vals)
 
 
@@ -193,7 +204,8 @@ def request_keys(cands: Sequence[Dict[str, Any]], services: Dict[str, Dict[str, 
 
 def pattern_matches(cand: Dict[str, Any], pat: Sequence[Dict[str, Any]], ecu: Dict[str, str],
                     services: Dict[str, Dict[str, Any]]) -> bool:
-    return all(param_matches(services[mp["svc"]], mp, ecu[request_key(cand, mp, services)]) for mp in pat)
+    return all(param_matches(services[mp["svc"]], mp, ecu[request_key(cand, mp, services)], mp["svc"] in cand.get("alt", ()))
+               for mp in pat)
 
 
 def candidate_matches(cand: Dict[str, Any], ecu: Dict[str, str], services: Dict[str, Dict[str, Any]]) -> bool:
